@@ -582,7 +582,8 @@ func regressionMutants() []mutCase {
 		add(pet, false, "delete", "")
 		// response-code keys written unquoted in YAML (`200:` is an !!int key)
 		r200 := find("paths", "/a/{id}", "get", "responses", "200")
-		add(r200, true, "code-key", "600", "99", "1000", "0", "-1", "99999999999999999999", "6XX", "0200", "418", "2XX")
+		add(r200, true, "code-key", "600", "99", "1000", "0", "-1", "99999999999999999999", "6XX", "0200", "418", "2XX",
+			"0XX", "-XX", " XX", "+XX", "9XX", "XXX", "/XX", "1xx", "10X", "XX", "éXX")
 		add(r200, false, "code-null", "")
 		add(r200, true, "code-dup", "")
 		add(find("paths", "/b", "get", "responses", "200"), true, "code-key", "600")
